@@ -50,16 +50,17 @@ def _near(ctx, new):
 
 
 def withdraw_unconfirmed(ctx, chk):
-    new = new_functions(ctx)
-    if not new:
+    new = new_functions(ctx) | set(getattr(ctx, "inlined_helpers", ()))
+    if not new and not getattr(ctx, "inlined_touched", None):
         return 0
-    near = _near(ctx, new) | set(getattr(ctx, "inlined_touched", ()))
+    near = _near(ctx, {k for k in new if k in ctx.ix.funcs}) | set(getattr(ctx, "inlined_touched", ()))
     by_site = {}
     for k, f in ctx.ix.funcs.items():
         by_site.setdefault((f.file, f.qual), k)
     n = 0
+    listed = {f_.ident() for f_, _k in chk.classify()[0]}       # a listed finding that is still reported under its own key has not moved
     for ident, f in list(chk.findings.items()):
-        if ident in getattr(chk, "positive", ()):
+        if ident in getattr(chk, "positive", ()) or ident in listed:
             continue
         cands = set()
         if isinstance(f.key, dict) and f.key.get("function"):
@@ -123,10 +124,13 @@ def with_helpers_inlined(ctx, make_ctx):
     try:
         from .inline import build_overlay
         overlay, touched = build_overlay(ctx)
-    except Exception:
+    except Exception as e:
+        import sys
+        print("NOTE: helper inlining failed (%s: %s); the rules run on the tree as written" % (type(e).__name__, e), file=sys.stderr)
         return make_ctx(None)
     if not overlay:
         return make_ctx(None)
     ctx2 = make_ctx(overlay)
     ctx2.inlined_touched = touched
+    ctx2.inlined_helpers = set(new_functions(ctx))
     return ctx2
